@@ -252,6 +252,31 @@ func c20Compact(r *Run, db *SiteDB) {
 			role[info.Defs[names[1]]] = "ino"
 			devName, inoName = names[0].Name, names[1].Name
 		}
+		// one parameter that bundles the two numbers (encodeLikely(di devino)): the device is
+		// the field handed to unix.Major / unix.Minor, the inode the other field
+		if len(names) == 1 {
+			if st, ok := info.Defs[names[0]].Type().Underlying().(*types.Struct); ok && st.NumFields() == 2 {
+				devField := ""
+				ast.Inspect(el.Decl.Body, func(n ast.Node) bool {
+					if c, ok := n.(*ast.CallExpr); ok && len(c.Args) == 1 {
+						if k := calleeKey(info, c); strings.HasSuffix(k, "unix.Major") || strings.HasSuffix(k, "unix.Minor") {
+							if sel, ok := unparen(c.Args[0]).(*ast.SelectorExpr); ok && objOf(info, sel.X) == info.Defs[names[0]] {
+								devField = sel.Sel.Name
+							}
+						}
+					}
+					return true
+				})
+				for i := 0; i < 2 && devField != ""; i++ {
+					if f := st.Field(i).Name(); f != devField {
+						devName, inoName = names[0].Name+"."+devField, names[0].Name+"."+f
+					}
+				}
+			}
+		}
+	}
+	isIno := func(e ast.Expr) bool {
+		return role[objOf(info, e)] == "ino" || norm(unparen(e)) == inoName && strings.Contains(inoName, ".")
 	}
 	ast.Inspect(el.Decl.Body, func(n ast.Node) bool {
 		if as, ok := n.(*ast.AssignStmt); ok && len(as.Lhs) == 1 && len(as.Rhs) == 1 {
@@ -288,7 +313,7 @@ func c20Compact(r *Run, db *SiteDB) {
 		}
 		if as.Tok == token.DEFINE || as.Tok == token.ASSIGN {
 			// q := ino & inoLikely
-			if be, ok := unparen(as.Rhs[0]).(*ast.BinaryExpr); ok && be.Op == token.AND && role[objOf(info, be.X)] == "ino" {
+			if be, ok := unparen(as.Rhs[0]).(*ast.BinaryExpr); ok && be.Op == token.AND && isIno(be.X) {
 				shifts["ino"] = 0
 			}
 		}
